@@ -454,6 +454,38 @@ def run(world, rep, tier, only=None):
                "length handed to ext2fs_inline_data_set `%s` derives from the length read back (%s): %s, from position and count: %s"
                % (T.pp(a4)[:30], sorted(old), from_old, from_end))
 
+    # ------------------------------------------------------------------ C09.x a buffer kept between calls is as large as this call needs
+    # ext2fs_zero_blocks2() keeps its buffer of zeroes in a static.  Its size is a number of blocks times the block
+    # size of the file system it was made for; a later call for a file system with larger blocks must not take the
+    # remembered count for granted (the "zeroes" written would be whatever lies behind the buffer): the block size the
+    # buffer was made for is remembered and compared.
+    zb = prog.fn("ext2fs_zero_blocks2", "lib/ext2fs/mkjournal.c")
+    allocs_ = [n for n in zb.events("S") if any(cc.get("fn") in ("realloc", "malloc") and
+                                                 any("blocksize" in T.field_names(a_) for a_ in cc.get("a", []) if isinstance(a_, dict))
+                                                 for cc in T.calls(n.ev.get("rhs") or {}))]
+    rep.floor("C09.x block-size dependent allocation in ext2fs_zero_blocks2", len(allocs_), 1)
+    statics = {T.path(n.ev["lhs"]) for n in zb.events("S") if T.strip(n.ev["lhs"]).get("k") == "v" and T.strip(n.ev["lhs"]).get("s") in ("s", "g", "sl")
+               and "blocksize" in T.field_names(n.ev.get("rhs") or {})}
+    cmp_ = [b for b in zb.blocks if zb.literal(b) and "blocksize" in T.field_names(zb.literal(b)[0]) and (T.vars_in(zb.literal(b)[0]) & statics)]
+    rep.ob("C09.x", site(zb, "the kept buffer is remade when the block size differs"), bool(statics) and bool(cmp_),
+           "block size remembered in %s and compared with fs->blocksize in %d test(s)" % (sorted(statics), len(cmp_)))
+
+    # ------------------------------------------------------------------ C09.y changing the size of an inline file is done in the inline area
+    # An inline-data inode has no blocks: the block routines (zeroing the tail of the last block, punching) do not
+    # apply and report EXT2_ET_INLINE_DATA_NO_BLOCK - after i_size was already changed.  ext2fs_file_set_size2() looks
+    # at EXT4_INLINE_DATA_FL and, on that side, rewrites the inline area (the bytes cut off are cleared) or expands.
+    ss2 = fio["ext2fs_file_set_size2"]
+    inl_tests = [ss2.block_end(b) for b in ss2.blocks if ss2.literal(b) and "EXT4_INLINE_DATA_FL" in T.macros(ss2.literal(b)[0])]
+    handled = False
+    for e_ in inl_tests:
+        lit = ss2.literal(e_.bid)
+        side = [m for (m, si) in ss2.succ(e_) if (si == 0) == lit[1]]
+        r = ss2.reach(side)
+        if any(is_call(x, "ext2fs_inline_data_set") for x in r) and any(is_call(x, "ext2fs_inline_data_expand") for x in r):
+            handled = True
+    rep.ob("C09.y", site(ss2, "inline files are resized in the inline area"), handled,
+           "a test of EXT4_INLINE_DATA_FL leads to ext2fs_inline_data_set() (shrink, cut bytes cleared) and ext2fs_inline_data_expand() (does not fit)")
+
 
 def copy_in_rules(prog, rep, RULE):
     """every copy into the handle's block buffer is paired with the dirty mark and preceded by a load, and the load
